@@ -298,6 +298,30 @@ def library(ctx):
         got = pt.PyTorchPreemphasize.from_preemphasize(pre.Preemphasize(coeff))(torch.from_numpy(x)).numpy()
         if got.shape != want.shape or not np.allclose(got, want, rtol=1e-12, atol=1e-12):
             ctx.violation(dict(kind="preemph", N=N, coeff=coeff), want.tolist()[:5], got.tolist()[:5], "PyTorchPreemphasize == Preemphasize.apply", tags=dict(clause="preemph"))
+    # modules compiled with torch.jit.trace on a float32 example (the way the library's tests do it) and with torch.jit.script,
+    # then given float64 and float32 signals: same dtype and values as the eager module / Preemphasize.apply
+    for coeff in (0.97, 0.5):
+        eager = pt.PyTorchPreemphasize.from_preemphasize(pre.Preemphasize(coeff))
+        for how in ("trace", "script"):
+            try:
+                mod = torch.jit.trace(eager, (torch.empty(1),)) if how == "trace" else torch.jit.script(eager)
+            except Exception as e:
+                ctx.violation(dict(kind="preemph_compiled", how=how, coeff=coeff), "a compiled module", "%s: %s" % (type(e).__name__, str(e)[:150]),
+                              "TorchScript compilation", tags=dict(clause="script_raises"))
+                continue
+            for tdt in (torch.float64, torch.float32):
+                for N in (1, 2, 33):
+                    x = torch.from_numpy(np.random.RandomState(N).randn(N)).to(tdt)
+                    case = dict(kind="preemph_compiled", how=how, coeff=coeff, dtype=str(tdt), N=N)
+                    ctx.case(case, kind="wrapper:preemph_compiled")
+                    try:
+                        got, want = mod(x), eager(x)
+                    except Exception as e:
+                        ctx.violation(case, "a result", "%s: %s" % (type(e).__name__, str(e)[:150]), "compiled module runs", tags=dict(clause="script_raises"))
+                        continue
+                    if got.dtype != want.dtype or not torch.equal(got, want):
+                        ctx.violation(case, [str(want.dtype)] + want.tolist()[:3], [str(got.dtype)] + got.tolist()[:3],
+                                      "TorchScript-compiled module agrees with the eager one (dtype and values)", tags=dict(clause="script"))
     for _ in range(ctx.scale(6, 60)):
         T, F = r.choice([(1, 3), (7, 4), (20, 2)])
         feats = np.random.RandomState(r.randrange(1 << 30)).randn(T, F)
